@@ -151,7 +151,11 @@ def big_jump(text):
         return sign * (int(x[1:3]) * 3600 + int(x[3:5]) * 60 + (int(x[5:7]) if len(x) >= 7 else 0))
     fr = re.findall(r"TZOFFSETFROM:([+-]\d{4,6})", text)
     to = re.findall(r"TZOFFSETTO:([+-]\d{4,6})", text)
-    return any(abs(secs(b) - secs(a)) >= 86400 for a, b in zip(fr, to))
+    if any(abs(secs(b) - secs(a)) >= 86400 for a, b in zip(fr, to)):
+        return True
+    # ... or two observances whose TZOFFSETTO are 24 h or more apart (the change happens between their onsets)
+    vals = [secs(x) for x in to]
+    return bool(vals) and max(vals) - min(vals) >= 86400
 
 
 def gen_vtz(rng, i):
@@ -491,6 +495,8 @@ def run(ctx, res):
                     fid = None if guard else ("C12-F1" if not order else "C12-F2" if not has_std else "C12-F3")
                     if fid and fid in known and g == mp:
                         res.known(fid, {"vtimezone": r["text"], "instant": s, "got": g, "rfc": want}, known[fid]["summary"])
+                    elif "C12-F7" in known and g[:1] == ["err"] and big_jump(r["text"]):
+                        res.known("C12-F7", {"vtimezone": r["text"], "instant": s, "got": g, "rfc": want, "provider": "pytz"}, known["C12-F7"]["summary"])
                     else:
                         res.fail("C12 pytz provider: offset/name/dst differ from the RFC onset rule"
                                  + (" inside the guard" if guard else " (not as the faithful model predicts)"),
